@@ -1,15 +1,34 @@
 //! modes for pdf/src/build.rs (Importer / PageBuilder::clone_page / PdfBuilder::build) — property C20
 //!
-//! import_graph  opts file roots            -> new refs of the roots ("id,gen;…"), number of new objects, then one field per new object (canon)
-//! import        opts file pages flags      -> see `import_pages`
-//! dump          opts file                  -> one field per object number 1..n (canon | !Kind), trailer last
+//! import_graph  opts file roots [flags [hist]] -> new refs of the roots ("id,gen;…"), number of new objects, then one field per new object (canon)
+//! import        opts file pages flags [hist]   -> see `import_pages`
+//! dump          opts file                      -> one field per object number 1..n (canon | !Kind), trailer last
+//!
+//! flags (ASCII letters): s = append the dump of the source, d = verbose clone errors,
+//!                        c = the SOURCE is opened with the object + stream caches (FileOptions::cached()),
+//!                        C = the TARGET storage is built with both caches, r = the saved file is reloaded with caches
+//! hist  (ASCII, steps separated by ';'): what is done on the source BEFORE the import (every answer is discarded):
+//!   P<n> page n "rendered": operations parsed, every image decoded (image_data + raw_image_data), every form's
+//!        operations parsed, every font loaded and its embedded data / ToUnicode read
+//!   I<n> images of page n: image_data      W<n> images of page n: raw_image_data
+//!   F<n> fonts of page n: embedded data    O<n> operations of page n (and of its forms) parsed
+//!   D<k> object k, if a stream: decoded through its filters (Stream::data — goes through the stream cache)
+//!   R<k> object k, if a stream: raw bytes read (Resolve::stream_data)
+//!   G<k> object k loaded typed as an XObject (object cache)
+//!   U<k> object k updated with its own value (pending change, not saved)
+//!   T<k> object k updated: its dictionary (or stream dictionary) gains /VTouched 7
+//!   N<k> a new stream object with generated data is created and object k's dictionary gains /VNew <ref to it>
 use crate::util::*;
 use crate::R;
+use pdf::any::AnySync;
 use pdf::build::{CatalogBuilder, Importer, PageBuilder, PdfBuilder};
 use pdf::content::serialize_ops;
-use pdf::file::{FileOptions, NoCache, NoLog, Storage};
-use pdf::object::{Cloner, ParseOptions, PlainRef, Resolve};
+use pdf::error::PdfError;
+use pdf::file::{Cache, File, FileOptions, NoCache, NoLog, Storage, SyncCache};
+use pdf::object::{Cloner, ParseOptions, PlainRef, Ref, Resolve, Stream, Updater, XObject};
 use pdf::primitive::Primitive;
+use std::panic::{catch_unwind, AssertUnwindSafe};
+use std::sync::Arc;
 
 fn opts_of(b: &[u8]) -> ParseOptions {
     if b.first() == Some(&b't') { ParseOptions::tolerant() } else { ParseOptions::strict() }
@@ -24,6 +43,12 @@ fn refs_of(b: &[u8]) -> Vec<PlainRef> {
 }
 fn nums_of(b: &[u8]) -> Vec<u32> {
     String::from_utf8_lossy(b).split(',').filter(|s| !s.is_empty()).filter_map(|p| p.trim().parse().ok()).collect()
+}
+/// "P0;D12;T7" -> [(b'P', 0), (b'D', 12), (b'T', 7)]
+fn steps_of(b: &[u8]) -> Vec<(u8, u64)> {
+    b.split(|&c| c == b';').filter(|s| !s.is_empty()).filter_map(|s| {
+        Some((s[0], std::str::from_utf8(&s[1..]).ok()?.trim().parse().ok()?))
+    }).collect()
 }
 
 /// every object of a storage by number, starting at 1, until the table ends
@@ -43,10 +68,141 @@ fn rect(r: &pdf::object::Rectangle) -> String {
     format!("{:08x},{:08x},{:08x},{:08x}", r.left.to_bits(), r.bottom.to_bits(), r.right.to_bits(), r.top.to_bits())
 }
 
-fn import_graph(f: &[Vec<u8>]) -> R {
-    let mut st = Storage::with_cache(fld(f, 1).to_vec(), opts_of(fld(f, 0)), NoCache, NoCache, NoLog).map_err(|e| ekind(&e))?;
+// ------------------------------------------------------------------------------------------------
+// histories on the source
+
+/// the reading steps that need nothing but a resolver (D R G)
+fn read_step(r: &impl Resolve, kind: u8, k: u64) {
+    let pr = PlainRef { id: k, gen: 0 };
+    match kind {
+        b'D' => {
+            if let Ok(Primitive::Stream(s)) = r.resolve(pr) {
+                if let Ok(st) = Stream::<()>::from_stream(s, r) { let _ = st.data(r); }
+            }
+        }
+        b'R' => {
+            if let Ok(Primitive::Stream(s)) = r.resolve(pr) { let _ = s.raw_data(r); }
+        }
+        b'G' => { let _ = r.get::<XObject>(Ref::from_id(k)); }
+        _ => {}
+    }
+}
+
+/// the value step U / T / N computes for object k (None: the object cannot be read, nothing is written)
+fn updated_value(r: &impl Resolve, kind: u8, k: u64, fresh: Option<PlainRef>) -> Option<Primitive> {
+    let mut p = r.resolve(PlainRef { id: k, gen: 0 }).ok()?;
+    let (key, val) = match kind {
+        b'T' => ("VTouched", Primitive::Integer(7)),
+        b'N' => ("VNew", Primitive::Reference(fresh?)),
+        _ => return Some(p),
+    };
+    match p {
+        Primitive::Dictionary(ref mut d) => { d.insert(key, val); }
+        Primitive::Stream(ref mut s) => { s.info.insert(key, val); }
+        _ => {}
+    }
+    Some(p)
+}
+
+fn page_step<OC, SC>(file: &File<Vec<u8>, OC, SC, NoLog>, kind: u8, n: u32)
+where OC: Cache<Result<AnySync, Arc<PdfError>>>, SC: Cache<Result<Arc<[u8]>, Arc<PdfError>>>
+{
+    let r = file.resolver();
+    let page = match file.get_page(n) { Ok(p) => p, Err(_) => return };
+    let all = kind == b'P';
+    if all || kind == b'O' {
+        if let Some(c) = page.contents.as_ref() { let _ = c.operations(&r); }
+    }
+    let res = match page.resources() { Ok(res) => res, Err(_) => return };
+    for (_, xr) in res.xobjects.iter() {
+        if let Ok(xo) = r.get(*xr) {
+            match *xo {
+                XObject::Image(ref im) => {
+                    if all || kind == b'I' { let _ = im.image_data(&r); }
+                    if all || kind == b'W' { let _ = im.raw_image_data(&r); }
+                }
+                XObject::Form(ref f) => {
+                    if all || kind == b'O' { let _ = f.operations(&r); }
+                }
+                _ => {}
+            }
+        }
+    }
+    if all || kind == b'F' {
+        for (_, lf) in res.fonts.iter() {
+            if let Ok(f) = lf.load(&r) {
+                let _ = f.embedded_data(&r);
+                let _ = f.to_unicode(&r);
+            }
+        }
+    }
+}
+
+fn history_on_file<OC, SC>(file: &mut File<Vec<u8>, OC, SC, NoLog>, hist: &[u8]) -> Result<(), String>
+where OC: Cache<Result<AnySync, Arc<PdfError>>>, SC: Cache<Result<Arc<[u8]>, Arc<PdfError>>>
+{
+    for (kind, k) in steps_of(hist) {
+        let res = catch_unwind(AssertUnwindSafe(|| {
+            match kind {
+                b'P' | b'I' | b'W' | b'F' | b'O' => page_step(file, kind, k as u32),
+                b'D' | b'R' | b'G' => read_step(&file.resolver(), kind, k),
+                b'U' | b'T' | b'N' => {
+                    // the value is computed from what the source answers now; a new object (N) is created first
+                    let has = file.resolver().resolve(PlainRef { id: k, gen: 0 }).is_ok();
+                    if has {
+                        let fresh = if kind == b'N' {
+                            file.create(Stream::new((), format!("generated data for {}", k).into_bytes())).ok().map(|rc| rc.get_ref().get_inner())
+                        } else { None };
+                        if kind != b'N' || fresh.is_some() {
+                            let p = updated_value(&file.resolver(), kind, k, fresh);
+                            if let Some(p) = p { let _ = file.update(PlainRef { id: k, gen: 0 }, p); }
+                        }
+                    }
+                }
+                _ => {}
+            }
+        }));
+        if res.is_err() { return Err("history:panic".into()); }
+    }
+    Ok(())
+}
+
+fn history_on_storage<OC, SC>(st: &mut Storage<Vec<u8>, OC, SC, NoLog>, hist: &[u8]) -> Result<(), String>
+where OC: Cache<Result<AnySync, Arc<PdfError>>>, SC: Cache<Result<Arc<[u8]>, Arc<PdfError>>>
+{
+    for (kind, k) in steps_of(hist) {
+        let res = catch_unwind(AssertUnwindSafe(|| {
+            match kind {
+                b'D' | b'R' | b'G' => read_step(&st.resolver(), kind, k),
+                b'U' | b'T' | b'N' => {
+                    let has = st.resolver().resolve(PlainRef { id: k, gen: 0 }).is_ok();
+                    if has {
+                        let fresh = if kind == b'N' {
+                            st.create(Stream::new((), format!("generated data for {}", k).into_bytes())).ok().map(|rc| rc.get_ref().get_inner())
+                        } else { None };
+                        if kind != b'N' || fresh.is_some() {
+                            let p = updated_value(&st.resolver(), kind, k, fresh);
+                            if let Some(p) = p { let _ = st.update(PlainRef { id: k, gen: 0 }, p); }
+                        }
+                    }
+                }
+                _ => {}
+            }
+        }));
+        if res.is_err() { return Err("history:panic".into()); }
+    }
+    Ok(())
+}
+
+// ------------------------------------------------------------------------------------------------
+// import_graph
+
+fn import_graph_with<OC, SC, OC2, SC2>(f: &[Vec<u8>], mut st: Storage<Vec<u8>, OC, SC, NoLog>, mut new: Storage<Vec<u8>, OC2, SC2, NoLog>) -> R
+where OC: Cache<Result<AnySync, Arc<PdfError>>>, SC: Cache<Result<Arc<[u8]>, Arc<PdfError>>>,
+      OC2: Cache<Result<AnySync, Arc<PdfError>>>, SC2: Cache<Result<Arc<[u8]>, Arc<PdfError>>>
+{
     st.load_storage_and_trailer().map_err(|e| ekind(&e))?;
-    let mut new = Storage::empty(NoCache, NoCache, NoLog);
+    history_on_storage(&mut st, fld(f, 4))?;
     let mut roots_out = String::new();
     {
         let mut imp = Importer::new(st.resolver(), &mut new);
@@ -63,16 +219,35 @@ fn import_graph(f: &[Vec<u8>]) -> R {
     Ok(out)
 }
 
+fn import_graph(f: &[Vec<u8>]) -> R {
+    let flags = fld(f, 3);
+    let data = fld(f, 1).to_vec();
+    let o = opts_of(fld(f, 0));
+    match (flags.contains(&b'c'), flags.contains(&b'C')) {
+        (false, false) => import_graph_with(f, Storage::with_cache(data, o, NoCache, NoCache, NoLog).map_err(|e| ekind(&e))?, Storage::empty(NoCache, NoCache, NoLog)),
+        (true, false) => import_graph_with(f, Storage::with_cache(data, o, SyncCache::new(), SyncCache::new(), NoLog).map_err(|e| ekind(&e))?, Storage::empty(NoCache, NoCache, NoLog)),
+        (false, true) => import_graph_with(f, Storage::with_cache(data, o, NoCache, NoCache, NoLog).map_err(|e| ekind(&e))?, Storage::empty(SyncCache::new(), SyncCache::new(), NoLog)),
+        (true, true) => import_graph_with(f, Storage::with_cache(data, o, SyncCache::new(), SyncCache::new(), NoLog).map_err(|e| ekind(&e))?, Storage::empty(SyncCache::new(), SyncCache::new(), NoLog)),
+    }
+}
+
+// ------------------------------------------------------------------------------------------------
+// import (pages)
+
 /// fields out:
 ///   0: number of pages imported (decimal)
 ///   per page i (5 fields): media box, crop box, "trim box|rotate", serialize_ops(source page ops), serialize_ops(reloaded page ops)
 ///   then: number of objects of the new file (decimal), one field per object 1..n (canon), the new trailer (canon),
 ///   then (flag 's'): number of objects of the source, one field per source object, the source trailer
-fn import_pages(f: &[Vec<u8>]) -> R {
+fn import_pages_with<OC, SC, OC2, SC2>(f: &[Vec<u8>], src: FileOptions<'static, OC, SC, NoLog>, dst: FileOptions<'static, OC2, SC2, NoLog>) -> R
+where OC: Cache<Result<AnySync, Arc<PdfError>>>, SC: Cache<Result<Arc<[u8]>, Arc<PdfError>>>,
+      OC2: Cache<Result<AnySync, Arc<PdfError>>>, SC2: Cache<Result<Arc<[u8]>, Arc<PdfError>>>
+{
     let flags = fld(f, 3);
-    let parse = || if fld(f, 0).first() == Some(&b't') { ParseOptions::tolerant() } else { ParseOptions::strict() };
-    let old = FileOptions::uncached().parse_options(parse()).load(fld(f, 1).to_vec()).map_err(|e| format!("load:{}", ekind(&e)))?;
-    let mut builder = PdfBuilder::new(FileOptions::uncached());
+    let parse = || opts_of(fld(f, 0));
+    let mut old = src.parse_options(parse()).load(fld(f, 1).to_vec()).map_err(|e| format!("load:{}", ekind(&e)))?;
+    history_on_file(&mut old, fld(f, 4))?;
+    let mut builder = PdfBuilder::new(dst);
     let mut pages = vec![];
     let mut old_ops = vec![];
     {
@@ -89,16 +264,10 @@ fn import_pages(f: &[Vec<u8>]) -> R {
     let data = builder.build(CatalogBuilder::from_pages(pages)).map_err(|e| format!("build:{}", ekind(&e)))?;
     let mut out: Vec<Vec<u8>> = vec![format!("{}", npages).into_bytes()];
     // typed view of the reloaded document
-    let newf = FileOptions::uncached().load(data.clone()).map_err(|e| format!("reload:{}", ekind(&e)))?;
-    if newf.num_pages() as usize != npages { return Err(format!("reload:pagecount{}", newf.num_pages())); }
-    for i in 0..npages {
-        let p = newf.get_page(i as u32).map_err(|e| format!("reload-page:{}", ekind(&e)))?;
-        out.push(p.media_box().map(|r| rect(&r)).unwrap_or_else(|e| format!("!{}", ekind(&e))).into_bytes());
-        out.push(p.crop_box().map(|r| rect(&r)).unwrap_or_else(|e| format!("!{}", ekind(&e))).into_bytes());
-        out.push(format!("{}|{}", p.trim_box.map(|r| rect(&r)).unwrap_or_else(|| "-".into()), p.rotate).into_bytes());
-        out.push(old_ops[i].clone());
-        let ops = match p.contents.as_ref() { Some(c) => c.operations(&newf.resolver()).map_err(|e| format!("reload-ops:{}", ekind(&e)))?, None => vec![] };
-        out.push(serialize_ops(&ops).map_err(|e| format!("reload-serops:{}", ekind(&e)))?);
+    if flags.contains(&b'r') {
+        typed_view(&FileOptions::cached().load(data.clone()).map_err(|e| format!("reload:{}", ekind(&e)))?, npages, &old_ops, &mut out)?;
+    } else {
+        typed_view(&FileOptions::uncached().load(data.clone()).map_err(|e| format!("reload:{}", ekind(&e)))?, npages, &old_ops, &mut out)?;
     }
     // raw graph of the reloaded document
     let mut st = Storage::with_cache(data, ParseOptions::strict(), NoCache, NoCache, NoLog).map_err(|e| format!("reopen:{}", ekind(&e)))?;
@@ -118,6 +287,32 @@ fn import_pages(f: &[Vec<u8>]) -> R {
         out.push(canon(&Primitive::Dictionary(tr), &so.resolver()));
     }
     Ok(out)
+}
+
+fn typed_view<OC, SC>(newf: &File<Vec<u8>, OC, SC, NoLog>, npages: usize, old_ops: &[Vec<u8>], out: &mut Vec<Vec<u8>>) -> Result<(), String>
+where OC: Cache<Result<AnySync, Arc<PdfError>>>, SC: Cache<Result<Arc<[u8]>, Arc<PdfError>>>
+{
+    if newf.num_pages() as usize != npages { return Err(format!("reload:pagecount{}", newf.num_pages())); }
+    for i in 0..npages {
+        let p = newf.get_page(i as u32).map_err(|e| format!("reload-page:{}", ekind(&e)))?;
+        out.push(p.media_box().map(|r| rect(&r)).unwrap_or_else(|e| format!("!{}", ekind(&e))).into_bytes());
+        out.push(p.crop_box().map(|r| rect(&r)).unwrap_or_else(|e| format!("!{}", ekind(&e))).into_bytes());
+        out.push(format!("{}|{}", p.trim_box.map(|r| rect(&r)).unwrap_or_else(|| "-".into()), p.rotate).into_bytes());
+        out.push(old_ops[i].clone());
+        let ops = match p.contents.as_ref() { Some(c) => c.operations(&newf.resolver()).map_err(|e| format!("reload-ops:{}", ekind(&e)))?, None => vec![] };
+        out.push(serialize_ops(&ops).map_err(|e| format!("reload-serops:{}", ekind(&e)))?);
+    }
+    Ok(())
+}
+
+fn import_pages(f: &[Vec<u8>]) -> R {
+    let flags = fld(f, 3);
+    match (flags.contains(&b'c'), flags.contains(&b'C')) {
+        (false, false) => import_pages_with(f, FileOptions::uncached(), FileOptions::uncached()),
+        (true, false) => import_pages_with(f, FileOptions::cached(), FileOptions::uncached()),
+        (false, true) => import_pages_with(f, FileOptions::uncached(), FileOptions::cached()),
+        (true, true) => import_pages_with(f, FileOptions::cached(), FileOptions::cached()),
+    }
 }
 
 pub fn dispatch(mode: &str, f: &[Vec<u8>]) -> Option<R> {
